@@ -14,6 +14,7 @@ from .. import cards, rel, yrun
 from ..engine import digest
 from ..ref import ref_basis, ref_conv
 
+HISTORY_SWEEP = True
 ID = "C09"
 MASSES = {"charm": 1.5, "bottom": 4.5}
 EXACT = {("charm", 9.0): 0.5, ("charm", 3.0): 0.25, ("bottom", 81.0): 0.5, ("bottom", 27.0): 0.25}
